@@ -4,6 +4,7 @@ import (
 	"bytes"
 	"crypto/rand"
 	"encoding/binary"
+	"encoding/hex"
 	"errors"
 	"fmt"
 	"strings"
@@ -1257,6 +1258,75 @@ func streamC08Probe(c *ctx) {
 		}
 	}
 	typedPayloadProbes(c)
+	// the text and JSON forms of a key / map: the hex of one complete map and nothing else
+	for _, a := range []int{-7, -8, 5, 1} {
+		k, err := genKeyFor(a)
+		if err != nil {
+			continue
+		}
+		kb, err := key.MarshalCBOR(k)
+		if err != nil {
+			continue
+		}
+		for _, tail := range []string{"00", "ff", "a0", hex.EncodeToString(kb), "zz", "0"} {
+			txt := hex.EncodeToString(kb) + tail
+			for form := 0; form < 4; form++ {
+				var derr error
+				var what string
+				p, pm := catch(func() {
+					switch form {
+					case 0:
+						var k2 key.Key
+						derr, what = k2.UnmarshalText([]byte(txt)), "Key.UnmarshalText"
+					case 1:
+						var k2 key.Key
+						derr, what = k2.UnmarshalJSON([]byte(`"`+txt+`"`)), "Key.UnmarshalJSON"
+					case 2:
+						var m2 key.CoseMap
+						derr, what = m2.UnmarshalText([]byte(txt)), "CoseMap.UnmarshalText"
+					default:
+						var m2 key.CoseMap
+						derr, what = m2.UnmarshalJSON([]byte(`"`+txt+`"`)), "CoseMap.UnmarshalJSON"
+					}
+				})
+				c.eval()
+				c.nontriv("text-trailing|" + what + "|" + tail[:1])
+				if p || derr == nil {
+					c.fail(failure{Op: "text-form", What: what + " accepts the hex of a map followed by more", Input: short(txt), Observed: fmt.Sprintf("panic=%v %s accepted", p, pm), Expected: "an error (trailing data)", Case: "text-trailing"})
+				}
+			}
+		}
+	}
+	// pre-encoded members (cbor.RawMessage, also nested) whose bytes hold an indefinite-length item: whatever object
+	// they sit in, the encoder refuses or the output passes the library's own strict validator
+	for _, raw := range [][]byte{{0x9f, 0x01, 0xff}, {0xbf, 0x01, 0x02, 0xff}, {0x5f, 0x41, 0x01, 0xff}, {0x7f, 0x61, 0x61, 0xff}, {0x81, 0x9f, 0xff}} {
+		rm := cbor.RawMessage(raw)
+		objs := map[string]func() ([]byte, error){
+			"Headers":        func() ([]byte, error) { return cose.Headers{1: 5, 99: rm}.MarshalCBOR() },
+			"Headers nested": func() ([]byte, error) { return cose.Headers{99: []any{1, rm}}.MarshalCBOR() },
+			"Key":            func() ([]byte, error) { return key.Key{1: 4, 3: 5, -1: []byte{1}, 99: rm}.MarshalCBOR() },
+			"KeySet":         func() ([]byte, error) { return key.MarshalCBOR(key.KeySet{key.Key{1: 4, 99: rm}}) },
+			"ClaimsMap":      func() ([]byte, error) { return cwt.ClaimsMap{1: "i", 99: map[any]any{1: rm}}.MarshalCBOR() },
+			"Recipient": func() ([]byte, error) {
+				return key.MarshalCBOR(&cose.Recipient{Protected: cose.Headers{}, Unprotected: cose.Headers{99: rm}, Ciphertext: []byte{}})
+			},
+			"Sign1 unprotected": func() ([]byte, error) {
+				return (&cose.Sign1Message[[]byte]{Unprotected: cose.Headers{99: rm}, Payload: []byte("p")}).SignAndEncode(genFkeyOK(c), nil)
+			},
+		}
+		for name, f := range objs {
+			var out []byte
+			var err error
+			p, pm := catch(func() { out, err = f() })
+			c.eval()
+			c.nontriv("raw-member|" + name)
+			if p {
+				c.fail(failure{Op: "encode", What: "encoding " + name + " with a pre-encoded member panics", Input: fmt.Sprintf("%x", raw), Observed: pm, Expected: "bytes or an error", Case: "raw-member"})
+			} else if err == nil && key.ValidCBOR(out) != nil {
+				c.fail(failure{Op: "encode", What: name + " is written with an indefinite-length item inside (a pre-encoded member is copied unchecked)", Input: fmt.Sprintf("member %x", raw), Observed: short(fmt.Sprintf("%x", out)), Expected: "an error, or output that the library's own strict decoder accepts", Case: "raw-member", Theorem: "C08_indefinite_refused"})
+			}
+		}
+	}
 	// one label held under two Go integer types, for every pair of types: refused, never merged or written twice
 	// (the encoder is asked several times: a merge picks its survivor by map iteration order)
 	intOf := []func(v int) any{
@@ -1550,4 +1620,10 @@ func streamMsgParts(c *ctx) {
 			hdec((&citem{kind: 5, m: [][2]*citem{{{kind: 0, n: 9}, wrap}}}).enc(nil), "labels-64bit-nested")
 		}
 	}
+}
+
+func genFkeyOK(c *ctx) fkey {
+	f := genFkey(c, 0)
+	f.fail = false
+	return f
 }
